@@ -118,6 +118,7 @@ def _concat(repo, col):
         col.check(okc, R, fi, f"{cls}: global_comp_index = 0..n-1", "dense numbering in constituent order",
                   f"global_comp_index is {unparse(gci[0].stmt.value) if gci else None}", node=gci[0].node if gci else fi.node)
         gbi = _stores(ex, "global_branch_index")
+        gbi_skip = False
         if cls == "Branch":
             okb = bool(gbi) and idx.same_expr(repo, fi, gbi[0].stmt, gbi[0].stmt.value, "[0] * self.ncomp")
         else:
@@ -133,9 +134,27 @@ def _concat(repo, col):
                     cnt = idx.value_norm(npb_[0].value)
                     is_cnt = lambda t_: t_.key() == cnt.key() or (t_.op == "attr" and t_.name == "ncomp_per_branch")
                     okb = len(n_) == 1 and n_[0].op == "call" and n_[0].name == "len" and is_cnt(n_[0].args[0]) and is_cnt(ra[1])
-        col.check(okb, R, fi, f"{cls}: global_branch_index repeats branch b ncomp[b] times",
-                  "np.repeat(arange(nbranches), ncomp_per_branch)", f"global_branch_index is {unparse(gbi[0].stmt.value) if gbi else None}",
-                  node=gbi[0].node if gbi else fi.node)
+            # the same as a nested comprehension: [b for b, n in enumerate(C) for _ in range(n)]
+            while gv.op in ("mcall", "call") and gv.name in ("tolist", "to_list", "list", "asarray", "array") and gv.args:
+                gv = next((a_ for a_ in gv.args if a_.op != "free"), gv.args[0])
+            if not okb and gv.op == "comp" and len(gv.args) == 3:
+                b_, it1, it2 = gv.args
+                npb_ = [s_ for s_ in ex.stores if s_.kind == "attr" and s_.key.name == "ncomp_per_branch" and s_.value is not None]
+                cnt = idx.value_norm(npb_[0].value) if npb_ else None
+                is_cnt = lambda t_: (cnt is not None and idx.value_norm(t_).key() == cnt.key()) or (t_.op == "attr" and t_.name == "ncomp_per_branch")
+                el = T("elem", None, [it1])
+                okb = it1.op == "call" and it1.name == "enumerate" and len(it1.args) == 1 and is_cnt(it1.args[0]) and \
+                    b_.key() == T("item", 0, [el]).key() and it2.op == "call" and it2.name == "range" and len(it2.args) == 1 and \
+                    it2.args[0].key() == T("item", 1, [el]).key()
+            recognised = T.find(idx.value_norm(gbi[0].value), lambda x: x.op in ("mcall", "call") and x.name in ("repeat", "tile", "arange", "concatenate", "hstack", "chain")) is not None
+            if not okb and not recognised:
+                col.unk(R, fi, f"{cls}: global_branch_index repeats branch b ncomp[b] times",
+                        f"global_branch_index is {unparse(gbi[0].stmt.value)[:80]}: not a form whose rows can be counted", node=gbi[0].node)
+                gbi_skip = True
+        if not gbi_skip:
+            col.check(okb, R, fi, f"{cls}: global_branch_index repeats branch b ncomp[b] times",
+                      "np.repeat(arange(nbranches), ncomp_per_branch)", f"global_branch_index is {unparse(gbi[0].stmt.value) if gbi else None}",
+                      node=gbi[0].node if gbi else fi.node)
         gce = _stores(ex, "global_cell_index")
         if cls == "Network":
             okx = bool(gce) and _cell_index_blocks(repo, fi, ex, gce[0])
